@@ -122,7 +122,7 @@ func (cf *ContractFile) expandAll() {
 	}
 }
 
-var labelRe = regexp.MustCompile(`^(\w+)\[([\w.\-]+)\]\s*(.*)$`)
+var labelRe = regexp.MustCompile(`^(\w+)\[([\w.\-:]+)\]\s*(.*)$`)
 
 func parseContractFile(path string) (*ContractFile, error) {
 	f, err := os.Open(path)
@@ -247,6 +247,10 @@ func parseContractFile(path string) (*ContractFile, error) {
 				c.Label = fmt.Sprintf("loop%d_inv%d", c.Loop, len(cur.Invariants))
 				if word == "step" {
 					c.Label = fmt.Sprintf("loop%d_step%d", c.Loop, len(cur.Invariants))
+				}
+				// invariant[k:name] / step[k:name]: a descriptive obligation name instead of the ordinal
+				if i := strings.Index(label, ":"); i >= 0 && i+1 < len(label) {
+					c.Label = fmt.Sprintf("loop%d_%s", c.Loop, label[i+1:])
 				}
 				cur.Invariants = append(cur.Invariants, c)
 				lastClause = c
